@@ -912,6 +912,9 @@ def simplify(e):
             and isinstance(e[2][0][1], tuple) and e[2][0][1][:1] == ("local",) and len(e[2][0][1]) == 3:
         # the clone of a Range held in a local is that Range (a pair of integers)
         return e[2][0][1][2]
+    if e[0] == "field" and isinstance(e[1], tuple) and e[1][:1] == ("local",) and len(e[1]) == 3 and isinstance(e[1][2], tuple) and e[1][2][:1] == ("agg",):
+        # a field of a local whose whole value is known
+        return simplify(("field", e[1][2], e[2]))
     if e[0] == "field" and isinstance(e[1], tuple) and e[1][0] == "agg":
         for fname, fe in e[1][3]:
             if fname == e[2]:
